@@ -683,7 +683,12 @@ pub fn run_workload(sub: u64, only_leg: Option<&str>, acc: &mut Acc, ctx: &Ctx, 
 
     // ---- invalid arguments --------------------------------------------------------
     if want("invalid-args") && rng.chance(1, 2) {
-        let bad: [(&str, Vec<&str>); 19] = [
+        let bad: [(&str, Vec<&str>); 23] = [
+            // a pattern that names the NUL byte while binary detection is on (line and multi-line mode)
+            ("invalid-regex", vec!["foo\\x00", "w"]),
+            ("invalid-regex", vec!["-U", "foo\\x00?", "w"]),
+            ("invalid-regex", vec!["-U", "[\\x00]oo", "w"]),
+            ("invalid-regex", vec!["-U", "--multiline-dotall", "foo.\\x{0}", "w"]),
             ("invalid-regex", vec!["foo(", "w"]),
             ("invalid-glob", vec!["-g", "{a", "foo", "w"]),
             ("invalid-encoding", vec!["-E", "no-such-encoding", "foo", "w"]),
